@@ -25,7 +25,7 @@
 /* match name between 2 dim_table_t type lists */
 typedef struct match_dim_name_t {
     int32 ref;                      /* reference */
-    char  dim_name[H4_MAX_NC_NAME]; /* name */
+    char  dim_name[H4_MAX_NC_NAME + 1]; /* name */
     int   flags[2];                 /* name exists 1, no 0 */
 } match_dim_name_t;
 
@@ -196,7 +196,7 @@ gen_dim(char *name, /* name of SDS */
     int32         numtype;                   /* number type */
     int32         eltsz;                     /* element size */
     int32         nelms;                     /* number of elements */
-    char          sds_name[H4_MAX_NC_NAME];
+    char          sds_name[H4_MAX_NC_NAME + 1];
     void         *buf = NULL;
     int           i, j, ret = 1;
     int           info;           /* temporary int compression information */
